@@ -1,22 +1,17 @@
 /-
-  Props/C15_v2d.lean — property C15, v2 async_mutex, part d: stop requests against queued waiters
-  (deferred scheduler): before start, while queued, racing with the hand-off, after the hand-off.
-  ONLY property theorems; model: Proto/MutexV2.lean; `safe` is spelled out in
-  C15_v2a.v2_safe_spelled.
+  Props/C15_v2d.lean — property C15, v2 async_mutex, part d: a stop request against a queued
+  waiter at ANY time (before start, while queued, racing with the hand-off, after the hand-off),
+  deferred scheduler.  ONLY property theorems; model: Proto/MutexV2.lean; `safeFull` is spelled out
+  in C15_v2a.
 -/
 import UnifexModel.Proto.MutexV2
 
 namespace Unifex.Props.C15
 open Unifex.Core Unifex.Proto.MutexV2
 
-/-- stop request at ANY time relative to the queued waiter: everything except `lock not leaked`
-    unconditionally; `lock not leaked` / `every waiter completes` when no stop request was pending
-    between hand-off and delivery. -/
-theorem v2_handoff_stop_safe_partial : ∀ s, Reach (sys cfgHandoffStop) s → safe cfgHandoffStop s = true :=
-  safe_of_check _ { coded with M := 587, W := 200 } 400 _ (by decide +kernel)
-
-/-- unlock (pop_front) races with the cancellation (try_remove) of the first of two waiters -/
-theorem v2_cancel_first_safe_partial : ∀ s, Reach (sys cfgCancelFirst) s → safe cfgCancelFirst s = true :=
-  safe_of_check _ { coded with M := 521, W := 272 } 400 _ (by decide +kernel)
+/-- unconditional: whatever the timing of the stop request, mutual exclusion, cancelled-never-owns,
+    every waiter completes exactly once and the lock is never leaked -/
+theorem v2_handoff_stop_safe : ∀ s, Reach (sys cfgHandoffStop) s → safeFull cfgHandoffStop s = true :=
+  safe_of_check _ { coded with M := 631, W := 200 } 400 _ (by decide +kernel)
 
 end Unifex.Props.C15
